@@ -292,6 +292,8 @@ def url_total(n: int, k0: int, k1: int, k2: int) -> bool:
 def _links_body(full):
     r = find_all_links(full)
     r2 = find_all_links(full, with_text=True)
+    find_all_links(full, default_scheme=False)
+    find_all_links(full, default_scheme='ftp', schemes=('ftp',))
     if not isinstance(r, list) or not isinstance(r2, list):
         return fail('find_all_links_type')
     return done(True, kind='links' if r else 'nolinks')
@@ -306,7 +308,9 @@ def links_total(n: int, k0: int, k1: int) -> bool:
     text = _draw(n, [k0, k1])
     which = pinval('ctx', 0)
     full = ['see http://a.b/' + text + ' and more', 'www.x' + text, 'x ' + text + '://h.com) y', 'http://[' + text + ']/',
-            'http://xn--' + text + '.de', 'ftp://u:p@h' + text + ':21/', 'see http://h.com:8' + text + ' ok'][which]
+            'http://xn--' + text + '.de', 'ftp://u:p@h' + text + ':21/', 'see http://h.com:8' + text + ' ok',
+            # scheme-less candidates (re-parsed with the default scheme): bad punycode label, port, bracket
+            'go to www.xn--' + text + '.com now', 'www.x.com:8' + text + '/p', 'www.[' + text + ' x'][which]
     with notrace():
         return _links_body(full)
 
@@ -330,6 +334,6 @@ def obligations(tier):
             obs.append(Ob('url_total', timeout=T, pins={'lmin': 2, 'lmax': 2, 'first': first}))
             for sk in range(len(SKELETONS)):
                 obs.append(Ob('url_total', timeout=T, pins={'lmin': 2, 'lmax': 2, 'skeleton': sk, 'first': first}))
-    for ctx in range(7):
+    for ctx in range(10):
         obs.append(Ob('links_total', timeout=T, pins={'lmax': 1 if q else 2, 'ctx': ctx}))
     return obs
